@@ -11,9 +11,10 @@
 (* fragment of Python defined in TLA+ (and cross-checked against CPython by    *)
 (* the harness); in RawTrace they are the logged ast.parse facts.              *)
 (*                                                                             *)
-(* The clause operators below are what the property states; RawTrace applies   *)
-(* the same operators to recorded executions of pfst.                          *)
-EXTENDS RawText, TLC
+(* The clause operators of RawLaws are what the property states; the action    *)
+(* property StepLaw says that every step of this model satisfies them, and     *)
+(* RawTrace applies the same operators to recorded executions of pfst.         *)
+EXTENDS RawLaws, TLC
 
 CONSTANTS Valid(_), Parse(_),      \* oracle: is this whole text valid for the root's kind / its tree
           InitTexts,               \* initial texts (valid)
@@ -26,26 +27,8 @@ VARIABLES text, tree, root, out, dirty,
 vars == <<text, tree, root, out, dirty, call, req>>
 View == <<text, tree, root, out, dirty>>
 
-St(tx, tr, ro) == [text |-> tx, tree |-> tr, root |-> ro]
 Cur  == St(text, tree, root)
 Cur1 == St(text', tree', root')
-
-(* ---------------------------- clauses ----------------------------------- *)
-(* s = state before, t = state after, new = requested whole text, v = oracle   *)
-(* validity of new, pr = oracle parse of new (only meaningful when v)          *)
-TextIsSplice(t, new)           == t.text = new
-TreeIsFullParseStruct(t, pr)   == t.tree.s = pr.s
-TreeIsFullParsePos(t, pr)      == t.tree.p = pr.p
-AcceptedOnlyIfValid(v)         == v                 \* evaluated when the call returned
-RefusedOnlyIfInvalid(v)        == ~v                \* evaluated when the call raised
-AtomicOnRaise(s, t)            == t.text = s.text /\ t.tree = s.tree
-RootIdentity(s, t)             == t.root = s.root
-
-ReparseLaw(s, t, outcome, new, v, pr) ==
-  IF outcome = "ok"
-  THEN /\ AcceptedOnlyIfValid(v) /\ TextIsSplice(t, new)
-       /\ TreeIsFullParseStruct(t, pr) /\ TreeIsFullParsePos(t, pr) /\ RootIdentity(s, t)
-  ELSE /\ RefusedOnlyIfInvalid(v) /\ AtomicOnRaise(s, t) /\ RootIdentity(s, t)
 
 (* ---------------------------- actions ----------------------------------- *)
 Init == /\ text \in InitTexts /\ tree = Parse(text) /\ root = 1 /\ out = "init" /\ dirty = FALSE
